@@ -851,6 +851,56 @@ def check_spherical(fx, R, S):
     for fh in fth:
         R.used(fh)
         _spherical_back(fx, R, S, rd, fh, sp.ImmutableMatrix(list(want) + [1]), want, r, a, e, '/homogeneous')
+    check_scalar_transforms(fx, R, S)
+
+
+def check_scalar_transforms(fx, R, S):
+    """R6: the scalar overloads of SphericalTransform / PolarTransform (arguments are plain numbers: nothing but their NAMES says which is which) are read with the argument each parameter name stands for and
+    must return the coordinate their own name stands for, on witness points of the quantifier (evaluated to 30 digits; angles compared modulo 2 pi)."""
+    rr, aa, ee = sp.Rational(7, 4), sp.Rational(-11, 10), sp.Rational(6, 5)
+    wit3 = [(rr, aa, ee), (sp.Rational(1, 10 ** 5), sp.Rational(5, 2), sp.Rational(1, 3)), (sp.Integer(10 ** 5), sp.Rational(-3, 1), sp.Rational(29, 10))]
+    for cls, dim in (('SphericalTransform', 3), ('PolarTransform', 2)):
+        fns_ = [f for f in fx.functions.values() if f['q'].startswith(NS + cls + '::') and f['q'].endswith('<%s>' % S) and f.get('body') is not None and f.get('params')
+                and all((p_.get('t') or {}).get('c') == 'fp' for p_ in f['params'])]
+        for f in sorted(fns_, key=lambda f: (f['name'], len(f['params']))):
+            R.used(f)
+            inst = '%s::%s(%s)<%s>' % (cls, f['name'], ', '.join(p_['name'] for p_ in f['params']), S)
+            bad, unknown = None, None
+            for (r_, a_, e_) in wit3:
+                if dim == 3:
+                    env = {'range': r_, 'azimut': a_, 'elevation': e_, 'x': r_ * sp.cos(a_) * sp.sin(e_), 'y': r_ * sp.sin(a_) * sp.sin(e_), 'z': r_ * sp.cos(e_)}
+                else:
+                    env = {'range': r_, 'azimut': a_, 'x': r_ * sp.cos(a_), 'y': r_ * sp.sin(a_)}
+                if f['name'] not in env or any(p_['name'] not in env for p_ in f['params']):
+                    unknown = 'a parameter name is not one of the coordinates (%s)' % [p_['name'] for p_ in f['params']]
+                    break
+                try:
+                    sts = sym.Reader(fx, call_hook=mat.hook).run(f, args=[env[p_['name']] for p_ in f['params']])
+                except sym.Unsupported as u:
+                    unknown = str(u)
+                    break
+                if len(sts) != 1 or not isinstance(sts[0].ret, sp.Basic):
+                    unknown = 'result not readable'
+                    break
+                try:
+                    got = sp.N(sts[0].ret, 30)
+                    wantv = sp.N(env[f['name']], 30)
+                    d = sp.Abs(sp.sin((got - wantv) / 2)) if f['name'] in ('azimut', 'elevation') else sp.Abs(got - wantv) / (sp.Abs(wantv) + 1)
+                    d = sp.N(d, 20)
+                except Exception:
+                    unknown = 'not evaluable on the witness point'
+                    break
+                if not (d.is_real and d < sp.Float('1e-12')):
+                    bad = bad or ((r_, a_, e_) if dim == 3 else (r_, a_), got, wantv)
+            if bad:
+                R.violated('R6', '%s::%s(scalars):value' % (cls, f['name']), 'called with the coordinates its parameter names stand for (%s) at the point (range, azimut%s) = %s, %s() returns %s, not the %s %s of that '
+                           'point: a scalar argument is handed on in the wrong position, so the scalar API is not the inverse map (and disagrees with the point overloads) [%s]' % (
+                               ', '.join(p_['name'] for p_ in f['params']), ', elevation' if dim == 3 else '', tuple(str(v_) for v_ in bad[0]), f['name'], sp.N(bad[1], 8), f['name'], sp.N(bad[2], 8), S),
+                           fx.rel(f['loc']), 'E-ORD')
+            elif unknown:
+                R.undecided('R6', inst, unknown)
+            else:
+                R.holds('R6', inst, 'returns the coordinate it is named after on %d witness points' % len(wit3), fx.rel(f['loc']), 'E-ORD')
 
 
 def _spherical_back(fx, R, S, rd, ft, arg, want, r, a, e, tag):
